@@ -165,28 +165,40 @@ func runC19(p *Program, r *Result) {
 			// the result of a helper spliced in: a merge whose every value that can get here is a
 			// constructor's result, found error-free on its own way into the merge
 			if ph, isPhi := stripConv(cached).(*ssa.Phi); isPhi {
-				all, n := true, 0
-				for k, e := range ph.Edges {
-					if feas := fe[ph.Block()]; feas != nil && !feas[k] {
-						continue
+				n := 0
+				var walk func(ph *ssa.Phi, depth int) bool
+				walk = func(ph *ssa.Phi, depth int) bool {
+					if depth > 4 {
+						return false
 					}
-					if isNilConst(e) {
-						continue // nothing is remembered on this way
+					for k, e := range ph.Edges {
+						if feas := fe[ph.Block()]; feas != nil && !feas[k] {
+							continue
+						}
+						if isNilConst(e) {
+							continue // nothing is remembered on this way
+						}
+						// a merge of merges: two helpers, one spliced into the other
+						if inner, isInner := stripConv(e).(*ssa.Phi); isInner {
+							if !walk(inner, depth+1) {
+								return false
+							}
+							continue
+						}
+						epe := pairedErr(e)
+						if epe == nil {
+							return false
+						}
+						a, okE := nilFact(phiEdgeFacts(ftb, ph, k), epe, true)
+						if !okE {
+							return false
+						}
+						a1 = a
+						n++
 					}
-					epe := pairedErr(e)
-					if epe == nil {
-						all = false
-						break
-					}
-					a, okE := nilFact(phiEdgeFacts(ftb, ph, k), epe, true)
-					if !okE {
-						all = false
-						break
-					}
-					a1 = a
-					n++
+					return true
 				}
-				if all && n > 0 {
+				if walk(ph, 0) && n > 0 {
 					ok1 = true
 				}
 			}
